@@ -437,3 +437,10 @@ Definition check13 (k : case13) : bool :=
 (* a history: partition; change the aggregate model; partition again (same ARM object or a fresh wrapper).  The
    model has no per-object state: every round is checked against the model applied to the graph of that round. *)
 Definition check13_hist (l : list case13) : bool := forallb check13 l.
+
+(* several results (of calls on different aggregates in one store), each looked at after the last call: every one
+   agrees with the model of its own aggregate, and no graph id is used by two partitions *)
+Definition obs_gids (k : case13) : list N :=
+  match o_adms (k_obs k) with Ok OB => map (fun x => snd (fst x)) OB | Err _ => [] end.
+Definition check13_pair (l : list case13) : bool :=
+  forallb check13 l && nodupb (flat_map obs_gids l).
